@@ -41,12 +41,17 @@ def program(rng, tier):
     opts = (32 if consent else 0) | (2 if reliable else 0) | rng.choice([0, 1])
     ops += [f"net seed {rng.randrange(10 ** 6)}", "net trace 0", f"net latency 1 {rng.choice([1, 20, 150])}",
             f"net loss {rng.choice([0, 0, 20])} 2"]
+    use_stun = rng.random() < 0.25
+    if use_stun:
+        ops.append(f"server 127.0.0.50:3478 stun {rng.choice(['s', 's', 'd', 'l'])}")
     if use_turn:
         ops.append(f"server 127.0.0.60:3478 turn {rng.choice(['a', 'a', 'a', 'ua', 'd', 'ue', 'n', 'aad', 'aad', 'uaad', 'aae', 'aaad'])} user pass")   # ..d: the server goes silent after allocating
     # a sixth of the programs: ICE-TCP candidates as well, and a foreign party that opens raw TCP connections to an agent's
     # tcp-passive candidate, writes whole / partial RFC 4571 frames and goes away
     use_tcp = rng.random() < 0.17
     tcpx = " icetcp=1" if use_tcp else ""
+    if use_stun:
+        tcpx += " stunsrv=127.0.0.50:3478"       # the server name is resolved asynchronously after gather
     ops.append(f"new A ctrl={rng.randint(0, 1)} compat=0 opts={opts}{tcpx} addrs=127.0.0.1" + (",127.0.0.2" if rng.random() < 0.3 else ""))
     ops.append(f"new B ctrl={rng.randint(0, 1)} compat=0 opts={opts}{tcpx} addrs=127.0.1.1")
     ops.append("fds")
@@ -107,7 +112,9 @@ def program(rng, tier):
                 if lv and rng.random() < 0.8:
                     sid = rng.choice(lv)
                 removed[ag].add(sid)
-            ops.append(f"{kind} {ag} {sid}")
+            # (a third of the gather calls return to the program without a main-loop iteration: asynchronous work — the lookup
+            #  of the STUN server name — is still pending when the next call is made)
+            ops.append(f"{kind} {ag} {sid}" + (" noiter" if kind == "gather" and rng.random() < 0.33 else ""))
             if kind == "rmstream":
                 ops.append(f"res {ag}")
         elif kind == "creds":
